@@ -153,7 +153,14 @@ impl HWorld {
                 let b = catch_unwind(AssertUnwindSafe(|| v.to_engine_via_iter()));
                 match (a, b) {
                     (Ok(Ok(x)), Ok(Ok(y))) => {
-                        if x == y { res_ok(Val::from_engine(&x)) } else { res_err("routes-disagree") }
+                        // the statically typed wrappers, where they can express the shape, give the same value
+                        let typed = catch_unwind(AssertUnwindSafe(|| v.to_engine_typed()));
+                        let typed_ok = match &typed {
+                            Ok(Some(z)) => *z == x && wirefilter::GetType::get_type(z) == wirefilter::GetType::get_type(&x),
+                            Ok(None) => true,
+                            Err(_) => false,
+                        };
+                        if x == y && typed_ok { res_ok(Val::from_engine(&x)) } else { res_err("routes-disagree") }
                     }
                     (Ok(Err(_)), Ok(Err(_))) => res_err("TypeMismatch"),
                     (Err(_), _) | (_, Err(_)) => res_err("panic"),
